@@ -278,9 +278,11 @@ def lockstep_clause(model, rep, funcs):
             continue
         rep.instance("LOCK", f.loc())
         c = [x for x in calls_in(f) if norm_src(x.func) == "self.__class__"]
-        fv = kwarg(c[0], "features") if len(c) == 1 else None
-        ok = len(c) == 1 and [norm_src(a) for a in c[0].args] == ["self.pos", "self.rotator"] and isinstance(fv, ast.Call) and \
-            isinstance(fv.func, ast.Attribute) and fv.func.attr == attr and norm_src(fv.func.value) == "self.features"
+        # the constructor call as parameter -> argument bindings (positional or keyword), temporaries expanded
+        MWF = Matcher(f)
+        ok = len(c) == 1 and any(MWF.has(p_) for p_ in (f"self.__class__(self.pos, self.rotator, features=self.features.{attr}(...))",
+                                                        f"self.__class__(pos=self.pos, rot=self.rotator, features=self.features.{attr}(...))",
+                                                        f"self.__class__(self.pos, rot=self.rotator, features=self.features.{attr}(...))"))
         rep.ob("LOCK", f.anchor, f"{name} keeps positions and rotations and only replaces the feature table (same row count enforced by the constructor)", ok, "",
                node=f.node, fn=f, clause="1 lock-step", stmt=f"def {name}")
     for a, drop in (("acryo/molecules/_group.py::MoleculeGroup.__iter__", False), ("acryo/molecules/_cut.py::MoleculeCutGroup.__iter__", True)):
@@ -348,9 +350,19 @@ def guards_clause(model, rep, funcs):
                     isinstance(n.node.value, ast.Constant) and n.node.value.value is None):
                 rep.instance("GUARD", f.loc(n.node))
 
+                MLG = Matcher(f)
+
                 def is_len_guard(c):
-                    return c.kind == "test" and "len(" in norm_src(c.node.test) and "!=" in norm_src(c.node.test) and ("pos" in norm_src(c.node.test) or "count" in norm_src(c.node.test)) \
-                        and any(isinstance(x, ast.Raise) for st in c.node.body for x in ast.walk(st))
+                    # `<row count of the table> != <number of molecules>` with the true branch raising; both sides with temporaries expanded
+                    if c.kind != "test" or not any(isinstance(x, ast.Raise) for st in c.node.body for x in ast.walk(st)):
+                        return False
+                    t = MLG.expr(c.node.test)
+                    if not (isinstance(t, ast.Compare) and len(t.ops) == 1 and isinstance(t.ops[0], ast.NotEq)):
+                        return False
+                    sides = [norm_src(t.left).replace(" ", ""), norm_src(t.comparators[0]).replace(" ", "")]
+                    rows = lambda s_: s_.startswith("len(") and "pos" not in s_ or s_.endswith(".height") or (s_.endswith(".shape[0]") and "pos" not in s_)
+                    mols = lambda s_: s_ in ("self.pos.shape[0]", "self._pos.shape[0]", "len(self.pos)", "len(self._pos)", "self.count()", "len(self)")
+                    return (rows(sides[0]) and mols(sides[1])) or (rows(sides[1]) and mols(sides[0]))
                 ok = cfg.must_pass_through(n, is_len_guard)
                 rep.ob("GUARD", f.anchor, "a feature table is stored only after its length was compared with the number of positions (mismatch raises)", ok,
                        f"`{norm_src(n.node)}` reachable without the length guard", node=n.node, fn=f, clause="3 guards")
